@@ -96,7 +96,8 @@ def expected_data(size, n_items):
 def write_script(size, ch, sr, frames, ext, pre=()):
     L = list(pre)
     L.append("open h0 s0 w fmt=%08x ch=%d sr=%d route=path ext=%s" % (0x160000 + size, ch, sr, ext))
-    L.append("w h0 s16 i %d %s" % (frames * ch, items_hex(frames * ch)))
+    if frames:
+        L.append("w h0 s16 i %d %s" % (frames * ch, items_hex(frames * ch)))
     L += ["close h0", "ledger rsrc s0 %s load:s1" % ext, "dump s1", "dump s0",
           "open h1 s0 r route=path ext=%s" % ext, "r h1 s16 i %d" % (frames * ch + ch), "close h1"]
     return "\n".join(L) + "\n"
@@ -123,6 +124,10 @@ def writer_jobs(ctx, quick):
                      "sd2" + "y" * rng.randrange(0, 60)))
     for ext in exts + ["s" * 100, "t" * 190]:
         jobs.append((2, 2, 44100, ext))
+    # fewer than 12 bytes of audio (guess_file_type's probe read comes back short; KF-C04-SD2-SHORT-DATA, repaired), N = 0 included
+    for size, ch, fr in ((1, 1, 0), (1, 1, 1), (1, 1, 11), (2, 1, 5), (2, 2, 0), (2, 2, 1), (2, 2, 2), (3, 1, 3), (3, 3, 1), (4, 1, 2), (4, 2, 1), (1, 11, 1), (2, 5, 1),
+                         (rng.choice((1, 2, 3, 4)), 1, rng.randrange(0, 3))):
+        jobs.append((size, ch, 8000, "sd2", fr))
     return jobs
 
 
@@ -134,8 +139,9 @@ def writer_campaign(ctx, env, stats, pred, corr):
     quick = ctx.tier == "quick"
     jobs = writer_jobs(ctx, quick)
     scripts, meta = [], {}
-    for i, (size, ch, sr, ext) in enumerate(jobs):
-        fr = frames_for(size, ch)
+    for i, job in enumerate(jobs):
+        size, ch, sr, ext = job[:4]
+        fr = job[4] if len(job) > 4 else frames_for(size, ch)
         for hist in ((False, True) if (i % 5 == 0 or not quick) else (False,)):
             n = "sd2w-%d-s%d-c%d-r%d%s" % (i, size, ch, sr, "-hist" if hist else "")
             scripts.append((n, write_script(size, ch, sr, fr, ext, HISTORY if hist else ())))
@@ -158,7 +164,7 @@ def writer_campaign(ctx, env, stats, pred, corr):
         name = ("s0." + ext).encode()
         reqs.append("rsrc size=%d sr=%d ch=%d name=%s" % (size, sr, ch, name.hex()))
         exp.append((n, sc, "fork", fork.hex()))
-        reqs.append("open dlen=%d fork=%s" % (len(data), fork.hex() or "-"))
+        reqs.append("file data=%s fork=%s" % (data.hex() or "-", fork.hex() or "-"))
         exp.append((n, sc, "reopen", opens[1]))
         # ---- C04 / C14 on the library's own transcript ----
         want = expected_data(size, fr * ch)
